@@ -268,36 +268,81 @@ def order_kind(node):
     return "first-seen"
 
 
+def _unordered_test(t, x):
+    """+1 if `t` is true exactly for data WITHOUT a declared order, -1 if it is true exactly for ordered data, 0 otherwise.
+    Spellings: `not hasattr(x.dtype, 'ordered') or not x.dtype.ordered` and its negation (De Morgan, getattr default)."""
+    txt = unparse(t)
+    has, ordd = f"hasattr({x}.dtype, 'ordered')", f"{x}.dtype.ordered"
+    if txt in (f"not {has} or not {ordd}", f"not ({has} and {ordd})"):
+        return 1
+    if txt in (f"{has} and {ordd}", f"not (not {has} or not {ordd})", f"getattr({x}.dtype, 'ordered', False)"):
+        return -1
+    if txt == f"not getattr({x}.dtype, 'ordered', False)":
+        return 1
+    return 0
+
+
 def r4_3(prog, rep):
+    """level order: decided on the abstract value of the categorical that is coded (self.levels = <X>.categories.tolist())"""
     for q in ("terms.variable.Variable.eval_categoric", "terms.call.Call.eval_categoric"):
-        f = prog.fn(q)
-        x = f.params[1]
-        br = [i for i in walk_local(f.node) if isinstance(i, ast.If) and unparse(i.test) == f"not hasattr({x}.dtype, 'ordered') or not {x}.dtype.ordered"]
-        ok = len(br) == 1
-        obl(rep, f, br[0] if br else f.node, "R4.3", ok, "declared order (ordered dtype) is tested before levels are derived")
-        if not ok:
+        try:
+            f, st = _attr_stores(prog, q)
+        except AnalysisError as e:
+            rep.defer(f"R4.3: {q}: {e}")
             continue
-        cat = [s for s in br[0].body if isinstance(s, ast.Assign) and unparse(s.targets[0]) == "categories"]
-        k = order_kind(cat[0].value) if cat else "?"
-        obl(rep, f, cat[0] if cat else br[0], "R4.3", len(cat) == 1 and k == "canonical",
-            "unordered data: the level list is of canonical order (sorted / np.unique)", f"`{unparse(cat[0].value) if cat else ''}` is {k}",
-            f"levels are defined by `{unparse(cat[0].value) if cat else None}` ({k} order): level order depends on row order / hashing")
-        rest = [unparse(s) for s in br[0].body]
-        ok = "dtype = pd.api.types.CategoricalDtype(categories=categories, ordered=True)" in rest and f"{x} = pd.Categorical({x}).astype(dtype)" in rest
-        obl(rep, f, br[0], "R4.3", ok, "the data is recoded with exactly that level list")
-        oe = [unparse(s) for s in br[0].orelse]
-        obl(rep, f, br[0], "R4.3", oe == [f"{x} = pd.Categorical({x})"], "ordered data: the dtype's own category order is respected", str(oe))
-    f = prog.fn("terms.call.Call.eval_categorical_box")
-    br = [i for i in walk_local(f.node) if isinstance(i, ast.If) and unparse(i.test) == "levels is None"]
-    ok = len(br) == 1
-    if ok:
-        a = br[0].body[0].value if isinstance(br[0].body[0], ast.Assign) else None
-        b = br[0].orelse[0].value if br[0].orelse and isinstance(br[0].orelse[0], ast.Assign) else None
-        ka = order_kind(a) if a is not None else "?"
-        kb = order_kind(b) if b is not None else "?"
-        obl(rep, f, br[0], "R4.3", ka == "canonical", "box without levels=: canonical order of the observed values", f"`{unparse(a)}` is {ka}",
-            f"`{unparse(a)}` is of {ka} order")
-        obl(rep, f, br[0], "R4.3", kb == "declared", "box with levels=: the given order is kept", f"`{unparse(b)}` is {kb}", f"`{unparse(b)}` re-orders the declared levels")
+        x = f.params[1]
+        lv = [y for y in st if y[0] == "self.levels"]
+        X = None
+        if len(lv) == 1 and lv[0][1].endswith(".categories.tolist()"):
+            try:
+                X = ast.parse(lv[0][1][: -len(".categories.tolist()")], mode="eval").body
+            except SyntaxError:
+                X = None
+        pol = _unordered_test(X.test, x) if isinstance(X, ast.IfExp) else 0
+        obl(rep, f, lv[0][4] if lv else f.node, "R4.3", pol != 0, "declared order (ordered dtype) is tested before levels are derived",
+            unparse(X.test) if isinstance(X, ast.IfExp) else "",
+            "the coded categorical does not distinguish data with a declared order from data without one")
+        if pol == 0:
+            continue
+        unord, ordd = (X.body, X.orelse) if pol == 1 else (X.orelse, X.body)
+        # unordered: pd.Categorical(x).astype(CategoricalDtype(categories=<canonical>, ordered=True))
+        cats = None
+        if isinstance(unord, ast.Call) and isinstance(unord.func, ast.Attribute) and unord.func.attr == "astype" and unparse(unord.func.value) == f"pd.Categorical({x})" \
+                and len(unord.args) == 1 and isinstance(unord.args[0], ast.Call) and dotted(unord.args[0].func) in ("pd.api.types.CategoricalDtype", "pd.CategoricalDtype", "CategoricalDtype"):
+            kw = {k.arg: k.value for k in unord.args[0].keywords}
+            if unparse(kw.get("ordered", ast.Constant(value=False))) == "True":
+                cats = kw.get("categories")
+        elif isinstance(unord, ast.Call) and dotted(unord.func) == "pd.Categorical" and unord.args and unparse(unord.args[0]) == x:
+            kw = {k.arg: k.value for k in unord.keywords}
+            if unparse(kw.get("ordered", ast.Constant(value=False))) == "True":
+                cats = kw.get("categories")
+        k = order_kind(cats) if cats is not None else "?"
+        uses_x = cats is not None and any(isinstance(n, ast.Name) and n.id == x for n in ast.walk(cats))
+        obl(rep, f, lv[0][4], "R4.3", cats is not None and k == "canonical" and uses_x,
+            "unordered data: the level list is of canonical order (sorted / np.unique)", f"`{unparse(cats) if cats is not None else ''}` is {k}",
+            f"levels of undeclared data are defined by `{unparse(cats) if cats is not None else unparse(unord)[:80]}` ({k} order): level order depends on row order / "
+            "hashing / the dtype's own order")
+        obl(rep, f, lv[0][4], "R4.3", cats is not None, "the data is recoded with exactly that level list", nontrivial=False)
+        obl(rep, f, lv[0][4], "R4.3", unparse(ordd) == f"pd.Categorical({x})", "ordered data: the dtype's own category order is respected", unparse(ordd)[:80])
+    q = "terms.call.Call.eval_categorical_box"
+    try:
+        f, st = _attr_stores(prog, q)
+        b = f.params[1]
+        lv = [y for y in st if y[0] == "self.levels"]
+        V = ast.parse(lv[0][1], mode="eval").body if len(lv) == 1 else None
+    except (AnalysisError, SyntaxError) as e:
+        rep.defer(f"R4.3: {q}: {e}")
+        V, f, lv, b = None, prog.fn(q), [], "box"
+    ka = kb = "?"
+    a_txt = b_txt = ""
+    if isinstance(V, ast.IfExp) and unparse(V.test) in (f"{b}.levels is None", f"{b}.levels is not None"):
+        derived, given = (V.body, V.orelse) if unparse(V.test).endswith("is None") else (V.orelse, V.body)
+        ka, a_txt = order_kind(derived), unparse(derived)
+        kb, b_txt = ("declared" if unparse(given) == f"{b}.levels" else order_kind(given)), unparse(given)
+    obl(rep, f, lv[0][4] if lv else f.node, "R4.3", ka == "canonical", "box without levels=: canonical order of the observed values", f"`{a_txt}` is {ka}",
+        f"`{a_txt}` is of {ka} order")
+    obl(rep, f, lv[0][4] if lv else f.node, "R4.3", kb == "declared", "box with levels=: the given order is kept", f"`{b_txt}` is {kb}",
+        f"`{b_txt}` re-orders the declared levels")
     cb = prog.fn("categorical.CategoricalBox.__init__")
     g = [i for i in walk_local(cb.node) if isinstance(i, ast.If) and "data.dtype.ordered" in unparse(i.test) and "levels is None" in unparse(i.test)]
     ok = len(g) == 1 and [unparse(s) for s in g[0].body] == ["levels = data.dtype.categories.tolist()"]
